@@ -129,6 +129,11 @@ func reproduces(j *Job, f *Found) bool {
 	if rec != nil {
 		vs = rec.Violations
 	}
+	if f.V.Oracle == "falls-silent" {
+		// the execution was cut because it never fell silent: after replaying it, work must still be pending
+		_, pending := w.defaultChoice()
+		return pending && !w.Dead
+	}
 	if j.Suffix {
 		if len(vs) == 0 && !w.Dead {
 			vs = ConvergenceCheck(w)
